@@ -69,7 +69,7 @@ type ment struct {
 type labels struct {
 	growth, chain2, chain3, evict, evictFirstEnd, evictLastEnd, evictAfterGrowth bool
 	setMaxMid, setMaxBelow, removeMid, removeChain, sortAny, sortAfterRemove     bool
-	sortTrunc, updateAtFull, moveFirst, moveLast, lruMove, emptyKey, extremeKey  bool
+	sortFailed, sortTrunc, updateAtFull, moveFirst, moveLast, lruMove, emptyKey, extremeKey  bool
 	negKey, cleared, removedAny, noOverRefused, multiEvict, nullKeyIgnored       bool
 	steps, maxSize                                                               int
 }
@@ -376,6 +376,7 @@ type inst struct {
 	entries       func(limit int) ([]kv, error)
 	clear         func()
 	sort          func(desc bool)
+	sortFail      func(after int) // ascending sort whose comparator panics at its (after+1)th call
 	setMax        func(n int)
 	setNone       func(code int64)
 	str           map[string]func() string // toString toFormatString
@@ -835,6 +836,23 @@ func (r *runner) exec(op Op, last bool) error {
 	case "sortAsc", "sortDesc":
 		m.sortBy(op.Op == "sortDesc")
 		in.sort(op.Op == "sortDesc")
+	case "sortFail":
+		// the caller's comparator panics during the sort: the call fails, and a failed call leaves the dictionary as it was
+		// (a sort that needed fewer comparisons than that completes normally)
+		failed := false
+		func() {
+			defer func() {
+				if recover() != nil {
+					failed = true
+				}
+			}()
+			in.sortFail(op.V % 5)
+		}()
+		if failed {
+			m.lab.sortFailed = true
+		} else {
+			m.sortBy(false)
+		}
 	case "setMax":
 		if r.step > 1 && len(m.es) > 0 {
 			m.lab.setMaxMid = true
@@ -971,6 +989,7 @@ func classesOf(c *Case, l *labels) []string {
 	add(l.sortAny, "sort")
 	add(l.sortAfterRemove, "sort-after-remove")
 	add(l.sortTrunc, "sort-with-size>max")
+	add(l.sortFailed, "sort-whose-comparator-panics")
 	add(l.updateAtFull, "update-while-full")
 	add(l.moveFirst, "putfirst-moves-existing")
 	add(l.moveLast, "putlast-moves-existing")
